@@ -1101,7 +1101,7 @@ pub fn run_c17(ctx: &mut Ctx, _known: &Known) {
         let mut r = Rng::new(ctx.seed.wrapping_mul(911).wrapping_add(i as u64));
         let k = 2 + r.below(3);
         let docs: Vec<Yaml> = (0..5).map(|_| gen::gen_doc(&mut r)).collect();
-        let kind = r.below(6);
+        let kind = r.below(7);
         // operands
         let mut entries: Vec<(Yaml, Yaml)> = (0..k).map(|_| gen::gen_entry(&mut r, 0)).collect();
         let mut docs = docs;
@@ -1134,13 +1134,26 @@ pub fn run_c17(ctx: &mut Ctx, _known: &Known) {
                 docs.push(Yaml::Mapping(d));
             }
         }
+        if kind == 6 {
+            // or-operands on one field with and without the str() cast, numeric document values
+            entries = (0..k).map(|_| match r.below(3) {
+                0 => (ys("str(n)"), Yaml::Number((*r.pick(&[1i64, 3])).into())),
+                1 => (ys("n"), ys(*r.pick(&["foo", "3", "a*"]))),
+                _ => (ys("str(n)"), ys(*r.pick(&["3", "1*"]))),
+            }).collect();
+            docs.clear();
+            for v in [Yaml::Number(1u64.into()), Yaml::Number(3u64.into()), ys("3"), ys("foo"), Yaml::Number(15u64.into())] {
+                docs.push(map1("n", v));
+            }
+        }
         let k = if kind == 5 { entries.len() } else { k };
         let members: Vec<Yaml> = (0..k).map(|_| ys(&gen::gen_pattern(&mut r))).collect();
         let perms: Vec<Vec<usize>> = permutations(&(0..k).collect::<Vec<_>>());
         let mut base: Option<(Vec<bool>, Vec<bool>)> = None;
         let mut base_exact: Option<Vec<String>> = None;
         for perm in perms {
-            let (det, exact_claim): (Vec<(String, Yaml)>, bool) = match kind {
+            let form = match kind { 6 => if perm.len() % 2 == 0 { 3 } else { 1 }, 5 => 4, other => other };
+            let (det, exact_claim): (Vec<(String, Yaml)>, bool) = match form {
                 0 => {
                     // entries of a mapping (and): truth only
                     let mut m = Mapping::new();
